@@ -1,7 +1,7 @@
 (* C02 — theorems.  Only statements and `exact lemma` here.  NOTES.md says in plain words what each
    one means and what is not proved. *)
 From GixV.Base Require Import Bytes Outcome.
-From GixV.C02 Require Import Model Spec ProofsTree ProofsIter ProofsTagIter ProofsWrite ProofsKnown ProofsTime ProofsSig ProofsCommitRT.
+From GixV.C02 Require Import Model Spec ProofsTree ProofsIter ProofsTagIter ProofsWrite ProofsKnown ProofsTime ProofsSig ProofsCommitRT ProofsExtraRT.
 
 (* ---- trees ------------------------------------------------------------------------------------ *)
 
@@ -111,6 +111,16 @@ Theorem commit_git_roundtrip_no_extra_headers : forall c, commit_wf c = true -> 
 Proof.
   intros c H Hx. pose proof (L_commit_plain_decodes c H Hx) as D.
   split; [exact D|]. split; [exact (L_iter_of_decoded c H D)|exact (L_commit_plain_writes c H Hx)].
+Qed.
+
+(* PROVED: EVERY commit git writes (any extra headers, single-line or folded like gpgsig/mergetag, with
+   empty, indented or CR-terminated continuation lines) is accepted by the full decoder with exactly the
+   written field values, and the streaming decoder yields exactly those values as tokens *)
+Theorem commit_git_decodes_in_both_parsers : forall c, commit_wf c = true ->
+  commit_decode (git_write_commit c) = Ok (commitref_of c)
+  /\ commit_iter (git_write_commit c) = map IOk (commit_tokens_of c).
+Proof.
+  intros c H. pose proof (L_commit_decodes c H) as D. split; [exact D|exact (L_iter_of_decoded c H D)].
 Qed.
 
 Definition tag_git_roundtrip_full_statement : Prop := forall g, tag_wf g = true ->
